@@ -25,15 +25,31 @@ type vEvent struct {
 	state NodeStateType
 }
 
-type vEvents struct{ log []vEvent }
+type vEvents struct {
+	log      []vEvent
+	owner    *Memberlist
+	unlocked int // callbacks delivered while the node lock was NOT write-held (serialisation broken)
+}
+
+// every callback must run under the node lock: that is what serialises events against each other and against
+// the table they describe
+func (e *vEvents) checkLocked() {
+	if e.owner != nil && e.owner.nodeLock.TryLock() {
+		e.owner.nodeLock.Unlock()
+		e.unlocked++
+	}
+}
 
 func (e *vEvents) NotifyJoin(n *Node) {
+	e.checkLocked()
 	e.log = append(e.log, vEvent{1, n.Name, n.Meta, n.Addr, n.Port, n.State})
 }
 func (e *vEvents) NotifyLeave(n *Node) {
+	e.checkLocked()
 	e.log = append(e.log, vEvent{2, n.Name, n.Meta, n.Addr, n.Port, n.State})
 }
 func (e *vEvents) NotifyUpdate(n *Node) {
+	e.checkLocked()
 	e.log = append(e.log, vEvent{3, n.Name, n.Meta, n.Addr, n.Port, n.State})
 }
 
@@ -138,6 +154,7 @@ type vTransport struct {
 	onWrite  func(b []byte, a Address)
 	owner    *Memberlist
 	flagAtShutdown bool // the shutdown flag was already raised when the transport was asked to shut down
+	shutdownGate chan struct{} // when set, Shutdown blocks here (a slow transport teardown)
 }
 
 func (t *vTransport) FinalAdvertiseAddr(ip string, port int) (net.IP, int, error) {
@@ -178,6 +195,9 @@ func (t *vTransport) Shutdown() error {
 		t.flagAtShutdown = true
 	}
 	t.shut++
+	if t.shutdownGate != nil {
+		<-t.shutdownGate
+	}
 	t.order = append(t.order, "shutdown")
 	return nil
 }
@@ -220,6 +240,7 @@ func vNewML(conf *Config) *vFix {
 	m.setAdvertise(net.IP{10, 0, 0, 1}, 7946)
 	f.m = m
 	f.tr.owner = m
+	f.ev.owner = m
 	return f
 }
 
